@@ -56,4 +56,43 @@ Section Compose.
     generalize (IZR (c_tsf c) * - f_spring c p (fst (props_xv Rops c s (ext_input [] i stp x rnd))) x).
     intros S0. split; [lra|]. unfold Rdiv. lra.
   Qed.
+  (* ---- histories: C17's module trace (mtrace: awake steps integrate, sleeping steps ignore their input) fed with the
+     pipeline's routing of a HISTORY of bias lists ------------------------------------------------------------------- *)
+  Definition hist_elem := (list bias * (Z * (R * R)))%type.      (* biases after the step, (step_relative, (x, rnd)) *)
+  Definition ext_inputs (i : nat) (h : list hist_elem) : list (@input R) :=
+    map (fun e => ext_input (fst e) i (fst (snd e)) (fst (snd (snd e))) (snd (snd (snd e)))) h.
+
+  (* along the whole trace: at every awake step without a factor error the routing equations hold; a sleeping step
+     leaves what C17's [sleep] leaves *)
+  Fixpoint routed_ok (c : @config R) (p : @params R) (it0 : Z) (i : nat) (s : @state R) (h : list hist_elem) : Prop :=
+    match h with
+    | [] => True
+    | e :: r =>
+      let inp := ext_input (fst e) i (fst (snd e)) (fst (snd (snd e))) (snd (snd (snd e))) in
+      let s' := mstep Rops c p it0 s inp in
+      (awake_at c it0 inp = true -> tsf_error c s inp = false ->
+         s_f s' = IZR (c_tsf c) * (- f_spring c p (fst (props_xv Rops c s inp)) (fst (snd (snd e)))) + VFa (fst e) i /\
+         s_fr s' = VFn (fst e) i / IZR (c_tsf c)) /\
+      (awake_at c it0 inp = false -> s' = sleep Rops s) /\
+      routed_ok c p it0 i s' r
+    end.
+
+  Theorem extended_routing_history c p it0 i (h : list hist_elem) : forall s, routed_ok c p it0 i s h.
+  Proof.
+    induction h as [|e r IH]; intros s; [exact I|].
+    cbn [routed_ok]. cbn zeta. split; [|split; [|apply IH]].
+    - intros Ha He. unfold mstep. rewrite Ha.
+      apply (extended_routing c p s (fst e) i (fst (snd e)) (fst (snd (snd e))) (snd (snd (snd e))) He).
+    - intros Ha. unfold mstep. rewrite Ha. reflexivity.
+  Qed.
+
+  Lemma mtrace_is_routed c p it0 i s (h : list hist_elem) :
+    mtrace Rops c p it0 s (ext_inputs i h) =
+    (fix go (s : @state R) (h : list hist_elem) : list (@state R) :=
+       match h with
+       | [] => []
+       | e :: r => let s' := mstep Rops c p it0 s (ext_input (fst e) i (fst (snd e)) (fst (snd (snd e))) (snd (snd (snd e)))) in
+                   s' :: go s' r
+       end) s h.
+  Proof. revert s. induction h as [|e r IH]; intros s; cbn [ext_inputs map mtrace]; [reflexivity|]. f_equal. apply IH. Qed.
 End Compose.
